@@ -208,7 +208,7 @@ def endpoints(vec_itvl: Interval, func) -> Interval:
         Interval(8.0, 36.0)
     """
 
-    v_np = vec_itvl.to_numpy()
+    v_np = np.atleast_2d(vec_itvl.to_numpy())  # a scalar interval is a one-dimensional box
     rows = np.vsplit(v_np, v_np.shape[0])
     arr = vec_cartesian_product(*rows)
     # print(arr.shape)  # array of shape (2**n, 2)
